@@ -595,3 +595,175 @@ Proof.
   destruct (run_nsps ops r0 r N0 E) as [A B]. rewrite T in B. split; auto.
   apply nsps_neighbours in A. unfold neighbours in A. rewrite B in A. exact A.
 Qed.
+
+(* ------------------------------------------------------------------ live update in state Valid *)
+
+Lemma in_gapb_spec : forall sa da x, in_gapb sa da x = true <-> in_gap sa da x.
+Proof.
+  intros. unfold in_gapb, in_gap. destruct (sa <? da).
+  - rewrite andb_true_iff, Z.leb_le, Z.ltb_lt. tauto.
+  - rewrite orb_true_iff, Z.leb_le, Z.ltb_lt. tauto.
+Qed.
+
+Lemma strictly_betweenb_spec : forall sa da x, strictly_betweenb sa da x = true <-> strictly_between sa da x.
+Proof.
+  intros. unfold strictly_betweenb, strictly_between. destruct (sa <? da).
+  - rewrite andb_true_iff, !Z.ltb_lt. tauto.
+  - rewrite orb_true_iff, !Z.ltb_lt. tauto.
+Qed.
+
+Lemma gap_strict : forall sa da x, x <> sa -> (in_gap sa da x <-> strictly_between sa da x).
+Proof. intros. unfold in_gap, strictly_between. destruct (sa <? da); lia. Qed.
+
+Lemma not_strict_self : forall sa da, ~ strictly_between sa da sa \/ da <= sa.
+Proof. intros. unfold strictly_between. destruct (Z.ltb_spec sa da); [left; lia|right; lia]. Qed.
+
+Lemma active_las_after : forall las sa da x,
+  length las = 128%nat -> 0 <= sa < 128 -> 0 <= da <= 128 ->
+  (active (las_after las sa da) x <-> x = sa \/ (active las x /\ ~ in_gap sa da x)).
+Proof.
+  intros las sa da x HL Hs Hd. unfold active. rewrite activeb_las_after by auto.
+  rewrite orb_true_iff, andb_true_iff, negb_true_iff, Z.eqb_eq, <- in_gapb_spec.
+  destruct (in_gapb sa da x); intuition congruence.
+Qed.
+
+Lemma ones_las_after : forall las sa da,
+  length las = 128%nat -> 0 <= sa < 128 -> 0 <= da <= 128 ->
+  las_ones (las_after las sa da) = las_after_pass (las_ones las) sa da.
+Proof.
+  intros las sa da HL Hs Hd. unfold las_after_pass.
+  apply sorted_ext; [apply las_ones_sorted|apply sorted_insert, sorted_filter, las_ones_sorted|].
+  intros x. rewrite In_las_ones, active_las_after by auto.
+  rewrite In_insert_sorted, filter_In, In_las_ones, negb_true_iff, <- in_gapb_spec.
+  destruct (in_gapb sa da x); intuition congruence.
+Qed.
+
+Lemma nth_activeb : forall l n, nth n l false = activeb l (Z.of_nat n).
+Proof.
+  intros. unfold activeb. rewrite Nat2Z.id. destruct (Z.leb_spec 0 (Z.of_nat n)); [reflexivity|lia].
+Qed.
+
+Lemma las_ext : forall l l', length l = length l' -> (forall x, activeb l x = activeb l' x) -> l = l'.
+Proof.
+  intros l l' HL H. apply (nth_ext l l' false false HL). intros n _. rewrite !nth_activeb. apply H.
+Qed.
+
+Lemma las_after_verified : forall las sa da,
+  length las = 128%nat -> 0 <= sa < 128 -> 0 <= da < 128 -> verifies las sa da ->
+  las_after las sa da = las.
+Proof.
+  intros las sa da HL Hs Hd [A [B C]]. apply las_ext; [apply las_after_length|].
+  intros x. rewrite activeb_las_after by (auto; lia).
+  destruct (Z.eqb_spec x sa) as [E|E]; [subst; simpl; symmetry; exact A|]. simpl.
+  destruct (activeb las x) eqn:X; auto. simpl.
+  apply negb_true_iff. destruct (in_gapb sa da x) eqn:G; auto.
+  exfalso. apply (C x X). apply gap_strict; auto. apply in_gapb_spec. exact G.
+Qed.
+
+Lemma ring_eta : forall r, mkRing (r_las r) (r_state r) (r_ts r) (r_ns r) (r_ps r) = r.
+Proof. intros []. reflexivity. Qed.
+
+Lemma unp_fix : forall r, nsps_ok r -> update_next_previous r = r.
+Proof. intros [l s t n p] [A B]. unfold update_next_previous. simpl in *. congruence. Qed.
+
+Lemma las_stable_step : forall R r sa da,
+  is_ring R -> length (r_las r) = 128%nat -> r_state r = LasValid -> las_ones (r_las r) = R ->
+  In (sa, da) (rotation R) -> witness r sa da = Ok (update_next_previous r).
+Proof.
+  intros R r sa da HR W St L HI.
+  destruct (rotation_in_range R sa da HR HI) as [Hs Hd].
+  assert (V : verifies (r_las r) sa da).
+  { apply (verifies_of_ring _ R); auto. intros x. rewrite <- In_las_ones, L. tauto. }
+  rewrite witness_good by auto. rewrite St. unfold upd.
+  rewrite las_after_verified by (auto; lia). rewrite ring_eta. reflexivity.
+Qed.
+
+Lemma las_stable : forall R r passes,
+  is_ring R -> length (r_las r) = 128%nat -> r_state r = LasValid -> las_ones (r_las r) = R ->
+  cyc_next R (r_ts r) (r_ns r) -> cyc_prev R (r_ts r) (r_ps r) ->
+  Forall (fun p => In p (rotation R)) passes -> run_w r passes = Ok r.
+Proof.
+  intros R r passes HR W St L N P F.
+  assert (NS : nsps_ok r) by (apply nsps_neighbours; unfold neighbours; rewrite L; auto).
+  induction passes as [|[sa da] t IH]; simpl; auto.
+  inversion F as [|? ? F1 F2]; subst.
+  rewrite (las_stable_step (las_ones (r_las r))) by auto. rewrite unp_fix by auto. simpl. apply IH. exact F2.
+Qed.
+
+Lemma valid_pass_spec : forall r sa da,
+  length (r_las r) = 128%nat -> r_state r = LasValid -> 0 <= sa <= 125 -> 0 <= da <= 125 ->
+  exists r', witness r sa da = Ok r' /\ r_state r' = LasValid /\ length (r_las r') = 128%nat /\
+             r_ts r' = r_ts r /\
+             cyc_next (las_ones (r_las r')) (r_ts r) (r_ns r') /\
+             cyc_prev (las_ones (r_las r')) (r_ts r) (r_ps r') /\
+             las_ones (r_las r') = las_after_pass (las_ones (r_las r)) sa da /\
+             forall x, active (r_las r') x <-> x = sa \/ (active (r_las r) x /\ ~ in_gap sa da x).
+Proof.
+  intros r sa da W St Hs Hd. rewrite witness_good by auto. rewrite St.
+  exists (upd r sa da). split; auto. destruct (upd_fields r sa da) as [L [S [T _]]].
+  split; [congruence|]. split; [apply upd_wf; auto|]. split; auto.
+  pose proof (proj1 (nsps_neighbours _) (upd_nsps r sa da)) as [N P]. rewrite T in N, P.
+  split; auto. split; auto. rewrite L.
+  split; [apply ones_las_after; auto; lia|]. intros x. apply active_las_after; auto; lia.
+Qed.
+
+Lemma las_leave : forall r a c,
+  length (r_las r) = 128%nat -> r_state r = LasValid -> 0 <= a <= 125 -> 0 <= c <= 125 ->
+  active (r_las r) a -> active (r_las r) c ->
+  exists r', witness r a c = Ok r' /\ r_state r' = LasValid /\
+             las_ones (r_las r') = filter (fun x => negb (strictly_betweenb a c x)) (las_ones (r_las r)) /\
+             (forall b, active (r_las r) b -> strictly_between a c b ->
+                        (forall x, active (r_las r) x -> strictly_between a c x -> x = b) ->
+                        las_ones (r_las r') = filter (fun x => negb (x =? b)) (las_ones (r_las r))) /\
+             cyc_next (las_ones (r_las r')) (r_ts r) (r_ns r') /\
+             cyc_prev (las_ones (r_las r')) (r_ts r) (r_ps r').
+Proof.
+  intros r a c W St Ha Hc Aa Ac.
+  destruct (valid_pass_spec r a c W St Ha Hc) as [r' [E [S' [W' [T' [N [P [L M]]]]]]]].
+  exists r'. split; auto. split; auto.
+  assert (Q : las_ones (r_las r') = filter (fun x => negb (strictly_betweenb a c x)) (las_ones (r_las r))).
+  { apply sorted_ext; [apply las_ones_sorted|apply sorted_filter, las_ones_sorted|].
+    intros x. rewrite In_las_ones, M, filter_In, In_las_ones, negb_true_iff.
+    destruct (Z.eq_dec x a) as [E1|E1].
+    - subst x. split; [|tauto]. intros _. split; auto.
+      destruct (strictly_betweenb a c a) eqn:G; auto. apply strictly_betweenb_spec in G.
+      unfold strictly_between in G. destruct (Z.ltb_spec a c); lia.
+    - rewrite (gap_strict a c x E1), <- strictly_betweenb_spec.
+      destruct (strictly_betweenb a c x); intuition congruence. }
+  split; auto. split; auto.
+  intros b Ab Sb U. rewrite Q. apply filter_ext_in. intros x Hx. apply In_las_ones in Hx. f_equal.
+  destruct (Z.eqb_spec x b) as [E1|E1].
+  - subst x. apply strictly_betweenb_spec. exact Sb.
+  - destruct (strictly_betweenb a c x) eqn:G; auto. apply strictly_betweenb_spec in G.
+    exfalso. apply E1. apply U; auto.
+Qed.
+
+Lemma las_join : forall r a b c,
+  length (r_las r) = 128%nat -> r_state r = LasValid ->
+  0 <= a <= 125 -> 0 <= b <= 125 -> 0 <= c <= 125 ->
+  active (r_las r) a -> ~ active (r_las r) b ->
+  (forall x, active (r_las r) x -> ~ strictly_between a b x) ->
+  (forall x, active (r_las r) x -> ~ strictly_between b c x) ->
+  exists r1 r2, witness r a b = Ok r1 /\ r_state r1 = LasValid /\
+                las_ones (r_las r1) = las_ones (r_las r) /\
+                witness r1 b c = Ok r2 /\ r_state r2 = LasValid /\
+                las_ones (r_las r2) = insert_sorted b (las_ones (r_las r)) /\
+                cyc_next (las_ones (r_las r2)) (r_ts r) (r_ns r2) /\
+                cyc_prev (las_ones (r_las r2)) (r_ts r) (r_ps r2).
+Proof.
+  intros r a b c W St Ha Hb Hc Aa Nb G1 G2.
+  destruct (valid_pass_spec r a b W St Ha Hb) as [r1 [E1 [S1 [W1 [T1 [_ [_ [_ M1]]]]]]]].
+  assert (Q1 : las_ones (r_las r1) = las_ones (r_las r)).
+  { apply sorted_ext; try apply las_ones_sorted. intros x. rewrite !In_las_ones, M1.
+    destruct (Z.eq_dec x a) as [E|E]; [subst; tauto|].
+    rewrite (gap_strict a b x E). split; [tauto|]. intros Hx. right. split; auto. }
+  assert (A1 : forall x, active (r_las r1) x <-> active (r_las r) x).
+  { intros x. rewrite <- !In_las_ones, Q1. tauto. }
+  destruct (valid_pass_spec r1 b c W1 S1 Hb Hc) as [r2 [E2 [S2 [W2 [T2 [N2 [P2 [_ M2]]]]]]]].
+  exists r1, r2. split; auto. split; auto. split; auto. split; auto. split; auto.
+  rewrite T1 in N2, P2. split; auto.
+  apply sorted_ext; [apply las_ones_sorted|apply sorted_insert, las_ones_sorted|].
+  intros x. rewrite In_las_ones, M2, In_insert_sorted, In_las_ones, A1.
+  destruct (Z.eq_dec x b) as [E|E]; [subst; tauto|].
+  rewrite (gap_strict b c x E). split; [tauto|]. intros [Q|Hx]; [tauto|]. right. split; auto.
+Qed.
